@@ -42,6 +42,15 @@ ARGS = {
     "optnn": [("onn", "Option<::core::ptr::NonNull<u8>>")],
     "optbox": [("ob", "Option<Box<u64>>")],
     "optfn": [("of", 'Option<extern "C" fn(u32) -> u32>')],
+    # the remaining spellings of the documented auto-wrapped shapes
+    # (`&mut str` is rejected at compile time in both positions: the wrapper only converts to `&str`)
+    "optmut": [("omu", "Option<&mut u32>")],
+    "slicecs": [("scs", "&[CS]")],
+    "optcs": [("ocs", "Option<CS>")],
+    "resunit": [("ru", "Result<(), u8>")],
+    # Option / Result spelled with a module path are the same shapes
+    "qopt": [("qo", "::core::option::Option<u32>")],
+    "qres": [("qr", "::std::result::Result<u32, u8>")],
 }
 # shapes abi_stable's derive cannot describe: not part of the layout_checks build
 NO_LAYOUT_CHECKS_ARGS = ("fnptr", "optbox", "optfn")
@@ -65,6 +74,16 @@ RETS = {
     "optptr": ("Option<*const u8>", None, "", ""),
     "optnn": ("Option<::core::ptr::NonNull<u8>>", None, "", ""),
     "res": ("Result<u64, u8>", None, "", ""),
+    "optcs": ("Option<CS>", None, "", ""),
+    "optmut": ("Option<&mut u32>", ("mut",), "", ""),
+    "slicecs": ("&[CS]", REF_RECV, "", ""),
+    "resunit": ("Result<(), u8>", None, "", ""),
+    "qopt": ("::core::option::Option<u32>", None, "", ""),
+    "qres": ("::std::result::Result<u32, u8>", None, "", ""),
+    # integer results through a one-parameter alias, and over a user error type
+    "resint_alias1": ("Res1<u64>", None, "#[int_result(Res1)]", ""),
+    "resint_cerr": ("Result<u64, CErr>", None, "#[int_result]", ""),
+    "res_cerr": ("Result<u64, CErr>", None, "", ""),
     "resint": ("Result<u64, ()>", None, "#[int_result]", ""),
     "resint_unit": ("Result<(), ()>", None, "#[int_result]", ""),
     "resint_io": ("Result<u32, ::std::io::Error>", None, "#[int_result]", ""),
@@ -87,7 +106,7 @@ def excluded(recv, args, ret):
     rt = RETS[ret]
     if rt[1] is not None and recv not in rt[1]:
         return "return borrows from a receiver kind that cannot lend it"
-    if ret in ("refu", "mutu", "slice", "slicemut", "str", "optref", "res_ref") and args in ("refu", "mutu", "slice", "slicemut", "str", "optref", "mixed", "cb", "iter"):
+    if ret in ("refu", "mutu", "slice", "slicemut", "str", "optref", "res_ref", "optmut", "slicecs") and args in ("refu", "mutu", "slice", "slicemut", "str", "optref", "mixed", "cb", "iter", "optmut", "slicecs"):
         return "macro rejects at compile time: the C wrapper has no `self`, so the elided output lifetime is ambiguous (E0106); named-lifetime forms are covered by multi::M3"
     return None
 
@@ -106,6 +125,16 @@ pub mod common {
         pub b: u64,
     }
     pub type AliasRes<T, E> = Result<T, E>;
+    /// a C-representable error type that can be integer-coded, and a one-parameter result alias over it
+    #[repr(C)]
+    #[derive(Clone, Copy)]
+    #[cfg_attr(feature = "layout_checks", derive(::abi_stable::StableAbi))]
+    pub struct CErr(pub u32);
+    impl ::cglue::result::IntError for CErr {
+        fn into_int_err(self) -> ::core::num::NonZeroI32 { ::core::num::NonZeroI32::new((self.0 as i32) | 1).unwrap() }
+        fn from_int_err(err: ::core::num::NonZeroI32) -> Self { CErr(err.get() as u32) }
+    }
+    pub type Res1<T> = Result<T, CErr>;
 }
 """
 
@@ -361,6 +390,48 @@ pub mod multi {
         fn g23(&self) -> usize { 23 }
     }
 
+    /// a method-level #[int_result] applies to that method only; a default-bodied `where Self: Sized` method keeps its slot
+    #[cglue_trait]
+    pub trait M10 {
+        fn before(&self) -> Result<u64, CErr>;
+        #[int_result]
+        fn coded(&self) -> Result<u64, CErr>;
+        fn after(&self) -> Result<u64, CErr>;
+        fn sized_default(&self, x: u64) -> u64 where Self: Sized { x }
+        fn after_unit(&mut self) -> Result<(), CErr>;
+        fn last(&self) -> u64;
+    }
+    pub struct I10;
+    impl M10 for I10 {
+        fn before(&self) -> Result<u64, CErr> { Ok(0) }
+        fn coded(&self) -> Result<u64, CErr> { Ok(1) }
+        fn after(&self) -> Result<u64, CErr> { Err(CErr(2)) }
+        fn sized_default(&self, x: u64) -> u64 { x + 1000 }
+        fn after_unit(&mut self) -> Result<(), CErr> { Ok(()) }
+        fn last(&self) -> u64 { 3 }
+    }
+
+    /// trait-level #[int_result] with a method-level alias override in the middle: the methods after it use the trait-level name again
+    #[cglue_trait]
+    #[int_result]
+    pub trait M11 {
+        fn open(&self) -> Result<u64, CErr>;
+        #[int_result(Res1)]
+        fn peek(&self) -> Res1<u64>;
+        fn close(&self) -> Result<u64, CErr>;
+        #[no_int_result]
+        fn plain(&self) -> Result<u64, CErr>;
+        fn done(&self) -> Result<(), CErr>;
+    }
+    pub struct I11;
+    impl M11 for I11 {
+        fn open(&self) -> Result<u64, CErr> { Ok(0) }
+        fn peek(&self) -> Res1<u64> { Ok(1) }
+        fn close(&self) -> Result<u64, CErr> { Ok(2) }
+        fn plain(&self) -> Result<u64, CErr> { Ok(3) }
+        fn done(&self) -> Result<(), CErr> { Ok(()) }
+    }
+
     /// lifetime-parameterised trait
     #[cglue_trait]
     pub trait M6<'x, T: Copy + 'x> {
@@ -523,6 +594,8 @@ FIXED_EXPECT = [
     ("multi", "M5", ["kept", "kept2"]),
     ("multi", "M6", ["hold", "held"]),
     ("multi", "M7", ["fa", "fb", "fc", "fd", "fe"]),
+    ("multi", "M10", ["before", "coded", "after", "sized_default", "after_unit", "last"]),
+    ("multi", "M11", ["open", "peek", "close", "plain", "done"]),
     ("multi", "M8", ["open", "read", "write", "flush", "close"]),
     ("multi", "M9", ["g00", "g01", "g02", "g03", "g04", "g05", "g06", "g07", "g08", "g09", "g10", "g11", "g12", "g13", "g14", "g15", "g16", "token", "g17", "g18", "g19", "g20", "g21", "g22", "g23"]),
     ("assoc", "Leaf", ["leaf", "leaf_mut"]),
@@ -545,13 +618,22 @@ FIXED_EXPECT = [
     ("gcase", "Clock", ["clock"]), ("gcase", "CPUState", ["cpustate"]), ("gcase", "Idle", ["idle"]), ("gcase", "IOPort", ["ioport"]),
     ("gcase", "VMExit", ["vmexit"]), ("gcase", "Vcpu", ["vcpu"]),
     ("ggen", "GBase", ["gbase"]),
+    ("gfwd", "FNamed", ["fnamed"]), ("gfwd", "FReader", ["fread"]), ("gfwd", "FWriter", ["fwrite"]),
 ]
+# which methods of the hand-written traits cross the boundary as an integer code (everything else of these traits does not)
+FIXED_INT = {
+    ("multi", "M10"): {"before": False, "coded": True, "after": False, "sized_default": False, "after_unit": False, "last": False},
+    ("multi", "M11"): {"open": True, "peek": True, "close": True, "plain": False, "done": True},
+    ("assoc", "WObjRes"): {"wres": True, "wres_c": False},
+}
 FIXED_GROUPS = [
     {"kind": "group", "mod": "assoc", "group": "LeafGroup", "mandatory": ["Leaf"], "optional": ["Leaf2"], "impls": [{"type": "L", "enabled": ["Leaf2"]}], "fixed": True},
     {"kind": "group", "mod": "gcase", "group": "Machine", "mandatory": ["Clock", "CPUState"], "optional": ["Idle", "IOPort", "Vcpu", "VMExit"],
      "impls": [{"type": "M1", "enabled": ["IOPort"]}, {"type": "M2", "enabled": ["Idle", "VMExit", "Vcpu"]}], "fixed": True},
     {"kind": "group", "mod": "ggen", "group": "GGroup", "mandatory": ["GBase"], "optional": ["GTu64", "GTu8"],
      "impls": [{"type": "GI", "enabled": ["GTu64", "GTu8"]}, {"type": "GJ", "enabled": ["GTu8"]}], "fixed": True},
+    {"kind": "group", "mod": "gfwd", "group": "FKv", "mandatory": ["FNamed"], "optional": ["FReader", "FWriter"],
+     "impls": [{"type": "FStore", "enabled": ["FReader"], "fwd_enabled": ["FReader", "FWriter"]}], "fixed": True},
 ]
 
 
@@ -633,6 +715,23 @@ pub mod ggen {
 '''
 
 
+
+
+FWD_GROUP = r'''
+pub mod gfwd {
+    use cglue::prelude::v1::*; use cglue::*; use super::common::*;
+    #[cglue_trait] #[cglue_forward] pub trait FNamed { fn fnamed(&self) -> u8; }
+    #[cglue_trait] #[cglue_forward] pub trait FReader { fn fread(&self) -> u32; }
+    #[cglue_trait] #[cglue_forward] pub trait FWriter { fn fwrite(&mut self, v: u32); }
+    cglue_trait_group!(FKv, FNamed, { FReader, FWriter });
+    pub struct FStore(pub u32);
+    impl FNamed for FStore { fn fnamed(&self) -> u8 { 1 } }
+    impl FReader for FStore { fn fread(&self) -> u32 { self.0 } }
+    impl FWriter for FStore { fn fwrite(&mut self, v: u32) { self.0 = v } }
+    // the owned value is exposed read-only, a forwarded `&mut FStore` read-write: the two lists are independent
+    cglue_impl_group!(FStore, FKv, { FReader }, { FReader, FWriter });
+}
+'''
 
 PAYLOADS = r"""
 pub mod payloads {
@@ -856,7 +955,7 @@ def main():
     GROUP_PROBES.append({"mod": "ggen", "variants": ["GGroup", "GGroupContainer", "GGroupWithGTu64", "GGroupWithGTu8", "GGroupWithGTu64GTu8"]})
     pm, pmeta = probes_mod()
     fm, fmeta = ffi_probes(metas, tier)
-    lib = HEADER + "pub use cglue;\n// wrap_with_*_ref expansions name `crate::trait_group` (generator quirk): provide it.\npub use cglue::trait_group;\n" + COMMON + "\n".join(mods) + MULTI + ASSOC + GENERIC_GROUP + CASE_GROUP + PAYLOADS + pm + "\n" + fm
+    lib = HEADER + "pub use cglue;\n// wrap_with_*_ref expansions name `crate::trait_group` (generator quirk): provide it.\npub use cglue::trait_group;\n" + COMMON + "\n".join(mods) + MULTI + ASSOC + GENERIC_GROUP + CASE_GROUP + FWD_GROUP + PAYLOADS + pm + "\n" + fm
     extra = os.path.join(os.path.dirname(os.path.abspath(__file__)), "static")
     if os.path.isdir(extra):
         for f in sorted(os.listdir(extra)):
@@ -885,7 +984,7 @@ abi_stable = { version = "0.10", optional = true }
 layout_checks = ["cglue/layout_checks", "abi_stable"]
 """ % repo)
     with open(os.path.join(out, "expect.json"), "w") as fh:
-        metas = metas + [{"kind": "fixed", "mod": a, "trait": b, "slots": c} for a, b, c in FIXED_EXPECT] + FIXED_GROUPS
+        metas = metas + [{"kind": "fixed", "mod": a, "trait": b, "slots": c, "int": FIXED_INT.get((a, b))} for a, b, c in FIXED_EXPECT] + FIXED_GROUPS
         json.dump({"tier": tier, "items": metas, "excluded": excl, "n_singles": len(combos), "probes": pmeta, "ffi": fmeta}, fh, indent=1)
     print("corpus: %d single-method traits, %d excluded combinations" % (len(combos), len(excl)))
 
